@@ -69,7 +69,7 @@ fn c02_scn(name: &str, with_password: bool, full: bool) -> ChatScn {
                 Life::Live => {
                     if v.registered(i) {
                         let me = v.nick(i).unwrap().to_string();
-                        for l in [format!("PRIVMSG wit :id{}", i), "JOIN #c".to_string(), "NICK z".to_string(), "NICK x".to_string(), format!("MODE {} +i", me), "QUIT".to_string()] {
+                        for l in [format!("PRIVMSG wit :id{}", i), "JOIN #c".to_string(), "NICK z".to_string(), "NICK x".to_string(), format!("MODE {} +i", me), "CAP END".to_string(), "QUIT".to_string()] {
                             acts.push(Act::Send(i, l));
                         }
                         if full {
